@@ -1043,13 +1043,17 @@ VH_TARGET(rt_inject_extract, 1,
                                 << hex(&fl, 1) << ") wrote " << wrote_show
                                 << ", which a reader of the documented format takes as: " << wrote.show()
                                 << "; expected exactly " << want.show());
-      // only headers of the propagator's own format are written
+      // Fields() is documented as "the fields set in the carrier by the inject method"
+      std::vector<std::string> fields;
+      p.p->Fields([&fields](nostd::string_view f) {
+        fields.emplace_back(f.data(), f.size());
+        return true;
+      });
       for (auto &k : keys)
       {
-        bool own = p.kind == 0   ? (k == kB3 || stale)
-                   : p.kind == 1 ? (k == kB3Trace || k == kB3Span || k == kB3Sampled)
-                                 : k == kUber;
-        VH_CHECK(c, own, p.name << ".Inject wrote an unexpected header " << k);
+        bool own = std::find(fields.begin(), fields.end(), k) != fields.end() ||
+                   (stale && (k == kB3Trace || k == kB3Span || k == kB3Sampled));
+        VH_CHECK(c, own, p.name << ".Inject wrote the header " << k << ", which Fields() does not list");
       }
     }
   };
